@@ -1,14 +1,43 @@
 #!/usr/bin/env python3
-"""Build-time guard of the migration world (no file of the repository is replaced).
+"""Build-time generator of the migration world (no file of the repository is replaced).
 
-The harness mirrors node.registerMigrations (the node package itself is not linked) and relies on
-the batch size of the block-transactions migration. This script fails the build loudly when the
-CURRENT sources of the repository no longer match what the harness mirrors, and writes an empty
-overlay.
+Package node cannot be linked into the harness (cgo / jemalloc), but the registry the node builds is
+part of what C18 judges. This script therefore copies the CURRENT source of
+
+    func registerMigrations(cfg *Config) *migration.Registry      ($REPO/node/migration.go)
+
+verbatim (renamed nodeRegisterMigrations) into a generated Go file which the overlay ADDS to package
+migworld, together with the imports the function needs, a local `type Config struct` holding the
+four fields of node.Config the function may read (declarations copied from $REPO/node/node.go) and
+the constant PruneModeFlag (copied from $REPO/node/node.go). The harness calls the generated
+function with the flags of every simulated start (migs.go: prodRegistry) and judges the registry it
+returns against the released bit assignment (migs.go: releasedSchema).
+
+The generated file lives under /verif/build/ov/migworld/<tag>/ with <tag> derived from $JSIM_REPO,
+so that concurrent checks against different copies of the repository do not clobber each other.
+The overlay JSON itself (/verif/build/overlay-migworld.json) is shared between such checks; to make
+a mix-up impossible the generated file imports a marker package that the same JSON adds to the
+tree of THAT copy of the repository only: a build of another copy that picks up this JSON fails
+("package .../jsimc18mark is not in ...") instead of silently testing the wrong source.
+
+If the function needs anything this file cannot provide (another parameter list, another field of
+Config, another package-level identifier of package node) the script fails with a message saying
+what is missing; the check then ends as machinery trouble (exit 2), never as a verdict.
+
+It also keeps the guard on the batch size of the block-transactions migration (world.go).
 """
-import json, os, re, sys
+import hashlib, json, os, re, sys
 
+HERE = os.path.dirname(os.path.abspath(__file__))
+VERIF = os.path.dirname(os.path.dirname(os.path.dirname(HERE)))
 repo = os.environ.get("JSIM_REPO", "/repo").rstrip("/")
+tag = hashlib.sha1(repo.encode()).hexdigest()[:10]
+GEN_NAME = "zz_node_registry_gen.go"  # does not exist in the package directory: the overlay adds it
+FUNC = "registerMigrations"
+NEWFUNC = "nodeRegisterMigrations"
+# fields of node.Config the generated Config offers (the start flags the harness models)
+FIELDS = ["Prune", "NewState", "RetainedBlocks", "PruneMinAge"]
+FIELD_TYPES = {"bool": None, "uint64": None, "uint": None, "int": None, "int64": None, "time.Duration": "time"}
 
 
 def die(msg):
@@ -16,25 +45,239 @@ def die(msg):
     sys.exit(1)
 
 
-src = open(os.path.join(repo, "node/migration.go")).read()
-m = re.search(r"func registerMigrations\(.*?\n}\n", src, re.S)
-if not m:
-    die("node/migration.go: registerMigrations not found")
-body = re.sub(r"\s+", "", m.group(0))
-want = ("migration.NewRegistry()."
-        "With(&blocktransactions.Migrator{})."
-        "WithOptional(historyprunner.New(cfg.RetainedBlocks,cfg.PruneMinAge),cfg.Prune,PruneModeFlag,)."
-        "WithOptional(&headstate.Migrator{},cfg.NewState,\"new-state\")."
-        "With(&statedifflength.Migrator{})")
-if want not in body:
-    die("node.registerMigrations changed: the harness mirrors exactly\n  " + want + "\nupdate prodRegistry/idx* in migs.go, world.go")
-if len(re.findall(r"\.With(Optional)?\(", body)) != 4:
-    die("node.registerMigrations registers a different number of migrations than the harness mirrors (4)")
-if not re.search(r'PruneModeFlag\s*=\s*"prune-mode"', open(os.path.join(repo, "node/node.go")).read()):
-    die('node.PruneModeFlag is no longer "prune-mode"')
-bt = open(os.path.join(repo, "migration/blocktransactions/blocktransactions.go")).read()
+def read(rel):
+    p = os.path.join(repo, rel)
+    try:
+        return open(p).read()
+    except OSError as e:
+        die("cannot read %s: %s" % (p, e))
+
+
+def blank(src):
+    """Comments and string/rune literals replaced by spaces (same length), for token scans."""
+    out = []
+    i, n = 0, len(src)
+    while i < n:
+        two = src[i:i + 2]
+        if two == "//":
+            j = src.find("\n", i)
+            j = n if j < 0 else j
+        elif two == "/*":
+            j = src.find("*/", i + 2)
+            j = n if j < 0 else j + 2
+        elif src[i] == "`":
+            j = src.find("`", i + 1)
+            j = n if j < 0 else j + 1
+        elif src[i] in "\"'":
+            q, j = src[i], i + 1
+            while j < n and src[j] != q and src[j] != "\n":
+                j += 2 if src[j] == "\\" else 1
+            j = min(n, j + 1)
+        else:
+            out.append(src[i])
+            i += 1
+            continue
+        out.append(re.sub(r"[^\n]", " ", src[i:j]))
+        i = j
+    return "".join(out)
+
+
+# ---------------------------------------------------------------------------------------------
+# node/migration.go: imports and the function
+
+msrc = read("node/migration.go")
+imports = []  # (name used in the file, spec as written without trailing comment)
+mi = re.search(r"^import \(\n(.*?)^\)", msrc, re.S | re.M)
+if not mi:
+    die("node/migration.go: no parenthesised import block found")
+for line in mi.group(1).splitlines():
+    line = re.sub(r"\s*//.*$", "", line).strip()
+    if not line:
+        continue
+    m = re.fullmatch(r'(?:([A-Za-z_]\w*|\.|_)\s+)?"([^"]+)"', line)
+    if not m:
+        die("node/migration.go: cannot parse import line %r" % line)
+    alias, path = m.group(1), m.group(2)
+    if alias == ".":
+        die("node/migration.go: dot import of %s: the generated file cannot tell which identifiers it provides" % path)
+    if alias == "_":
+        continue
+    name = alias or path.rsplit("/", 1)[-1]
+    imports.append((name, ("%s " % alias if alias else "") + '"%s"' % path))
+
+mf = re.search(r"^func %s\((.*?)\)(.*?)\{\n(.*?)^\}\n" % FUNC, msrc, re.S | re.M)
+if not mf:
+    die("node/migration.go: func %s not found" % FUNC)
+params, results, body = mf.group(1), mf.group(2).strip(), mf.group(3)
+pm = re.fullmatch(r"\s*([A-Za-z_]\w*)\s+\*Config\s*,?\s*", params)
+if not pm:
+    die("node.%s now takes (%s): the harness can only supply one *Config built from the start flags %s; "
+        "extend overlay.py / migs.go:prodRegistry" % (FUNC, " ".join(params.split()), FIELDS))
+cfgname = pm.group(1)
+if results != "*migration.Registry":
+    die("node.%s now returns %r, the harness expects *migration.Registry" % (FUNC, results))
+func_text = "func %s(%s)%s {\n%s}\n" % (NEWFUNC, params, " " + results, body)
+
+code = blank(body)
+toks = [(m.group(0), m.start(), m.end()) for m in re.finditer(r"[A-Za-z_]\w*", code)]
+
+
+def prev_char(pos):
+    j = pos - 1
+    while j >= 0 and code[j] in " \t\n":
+        j -= 1
+    return code[j] if j >= 0 else ""
+
+
+def next_chars(pos):
+    j = pos
+    while j < len(code) and code[j] in " \t\n":
+        j += 1
+    return code[j:j + 2]
+
+
+KEYWORDS = set("break case chan const continue default defer else fallthrough for func go goto if import interface map "
+               "package range return select struct switch type var".split())
+PREDECL = set("any bool byte comparable complex64 complex128 error float32 float64 int int8 int16 int32 int64 rune string "
+              "uint uint8 uint16 uint32 uint64 uintptr true false iota nil append cap clear close complex copy delete imag "
+              "len make max min new panic print println real recover _".split())
+impnames = {n for n, _ in imports}
+declared = {cfgname}
+for m in re.finditer(r"([A-Za-z_]\w*(?:\s*,\s*[A-Za-z_]\w*)*)\s*:=", code):
+    declared.update(x.strip() for x in m.group(1).split(","))
+for m in re.finditer(r"\b(?:var|const|type)\s+([A-Za-z_]\w*)", code):
+    declared.add(m.group(1))
+for m in re.finditer(r"\bfunc\s*\(([^)]*)\)", code):  # parameters of function literals
+    for part in m.group(1).split(","):
+        w = part.split()
+        if len(w) >= 2:
+            declared.add(w[0])
+
+used_imports, cfg_fields, free = set(), set(), set()
+for i, (name, s, e) in enumerate(toks):
+    if prev_char(s) == ".":
+        if i > 0 and toks[i - 1][0] == cfgname and prev_char(toks[i - 1][1]) != ".":
+            cfg_fields.add(name)
+        continue
+    if name in KEYWORDS or name in PREDECL or name in declared:
+        continue
+    nx = next_chars(e)
+    if name in impnames and nx.startswith("."):
+        used_imports.add(name)
+        continue
+    if nx.startswith(":") and nx != ":=":
+        continue  # key of a composite literal / label
+    free.add(name)
+
+provided = {"PruneModeFlag", "Config"}
+missing = sorted(free - provided)
+if missing:
+    die("node.%s uses identifier(s) %s of package node which the generated file does not provide "
+        "(it provides Config{%s} and PruneModeFlag); extend overlay.py" % (FUNC, ", ".join(missing), ", ".join(FIELDS)))
+extra = sorted(cfg_fields - set(FIELDS))
+if extra:
+    die("node.%s reads %s: the harness models only the start flags %s; extend overlay.py "
+        "(FIELDS) and migs.go (flags, prodRegistry, flagCombos)" % (FUNC, ", ".join(cfgname + "." + x for x in extra), FIELDS))
+
+# ---------------------------------------------------------------------------------------------
+# node/node.go: PruneModeFlag and the declarations of the Config fields
+
+nsrc = read("node/node.go")
+mp = re.search(r'^\s*PruneModeFlag\s*(?:string\s*)?=\s*("(?:[^"\\\n]|\\.)*")\s*(?://.*)?$', nsrc, re.M)
+if not mp:
+    die("node/node.go: constant PruneModeFlag = \"...\" not found")
+prune_flag_lit = mp.group(1)
+
+mc = re.search(r"^type Config struct \{\n(.*?)^\}\n", nsrc, re.S | re.M)
+if not mc:
+    die("node/node.go: type Config struct not found")
+field_decl = {}
+for line in blank(mc.group(1)).splitlines():
+    m = re.match(r"^\s+([A-Za-z_]\w*)\s+([\w.*\[\]]+)\s*$", line.rstrip())
+    if m and m.group(1) in FIELDS:
+        field_decl[m.group(1)] = m.group(2)
+need_imports = set()
+for f in FIELDS:
+    if f not in field_decl:
+        if f in cfg_fields:
+            die("node/node.go: field Config.%s (read by %s) not found" % (f, FUNC))
+        continue
+    t = field_decl[f]
+    if t not in FIELD_TYPES:
+        die("node.Config.%s has type %s now; the harness knows %s: extend overlay.py and migs.go" % (f, t, sorted(FIELD_TYPES)))
+    if FIELD_TYPES[t]:
+        need_imports.add(FIELD_TYPES[t])
+# the harness assigns these (migs.go): their types are part of what it relies on
+WANT_TYPES = {"Prune": "bool", "NewState": "bool", "RetainedBlocks": "uint64", "PruneMinAge": "time.Duration"}
+for f, t in WANT_TYPES.items():
+    if field_decl.get(f) != t:
+        die("node.Config.%s is %s now (harness: %s): update migs.go:prodRegistry and WANT_TYPES" % (f, field_decl.get(f, "absent"), t))
+
+# ---------------------------------------------------------------------------------------------
+# other guards of the world
+
+bt = read("migration/blocktransactions/blocktransactions.go")
 if not re.search(r"\n\tbatchSize = 10\n", bt):
     die("blocktransactions.batchSize is no longer 10: update batchSize and blockCounts in world.go")
 
-with open(sys.argv[1], "w") as f:
-    json.dump({"Replace": {}}, f)
+# ---------------------------------------------------------------------------------------------
+# generated files
+
+MARK_PKG = "jsimc18mark"
+mark_ident = "Repo_" + tag
+imp_lines = []
+std = sorted(need_imports - {spec.strip('"') for n, spec in imports if n in used_imports})
+for p in std:
+    imp_lines.append('\t"%s"' % p)
+for n, spec in imports:
+    if n in used_imports:
+        imp_lines.append("\t" + spec)
+imp_lines.append('\t"github.com/NethermindEth/juno/%s"' % MARK_PKG)
+
+gen = """// Code generated by harness/migworld/overlay.py from %(repo)s/node/migration.go and node/node.go. DO NOT EDIT.
+//
+// The body of %(newfunc)s is the verbatim source of node.%(func)s.
+
+package migworld
+
+import (
+%(imports)s
+)
+
+// this file belongs to the build of %(repo)s (see overlay.py)
+const _ = %(markpkg)s.%(mark)s
+
+// Config holds the fields of node.Config that node.%(func)s may read (declarations from node/node.go).
+type Config struct {
+%(fields)s
+}
+
+// PruneModeFlag is node.PruneModeFlag.
+const PruneModeFlag = %(flag)s
+
+%(functext)s""" % {
+    "repo": repo, "newfunc": NEWFUNC, "func": FUNC, "imports": "\n".join(imp_lines), "markpkg": MARK_PKG, "mark": mark_ident,
+    "fields": "\n".join("\t%s %s" % (f, field_decl[f]) for f in FIELDS if f in field_decl),
+    "flag": prune_flag_lit, "functext": func_text,
+}
+mark = "// Code generated by harness/migworld/overlay.py. DO NOT EDIT.\n\n// Package %s marks the copy of the repository a generated harness file was extracted from.\npackage %s\n\nconst %s = true\n" % (MARK_PKG, MARK_PKG, mark_ident)
+
+outdir = os.path.join(VERIF, "build", "ov", "migworld", tag)
+os.makedirs(outdir, exist_ok=True)
+
+
+def put(path, text):
+    tmp = "%s.%d.tmp" % (path, os.getpid())
+    with open(tmp, "w") as f:
+        f.write(text)
+    os.replace(tmp, path)
+
+
+gen_path = os.path.join(outdir, GEN_NAME)
+mark_path = os.path.join(outdir, "mark.go")
+put(gen_path, gen)
+put(mark_path, mark)
+put(sys.argv[1], json.dumps({"Replace": {
+    os.path.join(HERE, GEN_NAME): gen_path,
+    os.path.join(repo, MARK_PKG, "mark.go"): mark_path,
+}}, indent=1))
